@@ -28,7 +28,7 @@ mod verif_bounded {
         let mut fails = 0;
         let big: [u64; 10] = [9999, 10000, 10001, 65535, 99999, 100000, 1000000, 4294967295, 4294967296, 1844674407370955161];
         let names: Vec<Vec<u8>> = vec![b"file.txt".to_vec(), b"f".to_vec(), b"a b".to_vec(), "na\u{ef}ve".as_bytes().to_vec(),
-                                       b"f\xff".to_vec(), b"\xfe\xfdx.dat".to_vec(), b"file.txt.~1~".to_vec()];
+                                       b"f\xff".to_vec(), b"\xfe\xfdx.dat".to_vec(), b"file.txt.~1~".to_vec(), b"two\nlines.txt".to_vec()];
         for name in &names {
             let base = PathBuf::from(OsString::from_vec(name.clone()));
             let fname = filename(&base).unwrap();
@@ -54,11 +54,12 @@ mod verif_bounded {
     #[test]
     fn bounded_next_backup_num() {
         let universe: [u64; 10] = [1, 2, 9, 10, 11, 99, 100, 101, 205, 1000];
-        let names: Vec<Vec<u8>> = vec![b"f.txt".to_vec(), b"f\xff".to_vec()];
+        let names: Vec<Vec<u8>> = vec![b"f.txt".to_vec(), b"f\xff".to_vec(), b"two\nlines.txt".to_vec()];
         let mut fails = 0;
         let mut cases = 0;
         for name in &names {
             for mask in 0u32..(1u32 << universe.len()) {
+                if name[0] == b't' && mask % 37 != 0 && mask != 1023 { continue; }   // the third name: a sample of the subsets
                 let dir = tempfile::TempDir::new().unwrap();
                 let base = dir.path().join(PathBuf::from(OsString::from_vec(name.clone())));
                 File::create(&base).unwrap();
@@ -201,9 +202,9 @@ def backup_bounded():
             'ok': p.returncode == 0 and not fails and ran is not None and ran.group(3) == '0' and ran.group(2) == '4',
             'built': ran is not None,
             'failures': fails[:10],
-            'cases': sum(int(x) for x in ms) + 7 * 2010 + 8,
-            'bound': 'is_num_backup: 7 names (incl. non-UTF-8, prefix-like) x N in 1..=2000 plus 10 large N, 8 non-backup names; next number at the ends of the range: 2 names x all subsets of {0, 1, u64::MAX-1, u64::MAX}; 4 spellings of the destination (bare, ./, sub/, sub/../) x all subsets of {1,2,10}; '
-                     'next_backup_num/has_backup/get_backup_path: 2 names (one non-UTF-8) x all 1024 subsets of existing numbers {1,2,9,10,11,99,100,101,205,1000}',
+            'cases': sum(int(x) for x in ms) + 8 * 2010 + 8,
+            'bound': 'is_num_backup: 8 names (incl. non-UTF-8, prefix-like, one with a newline) x N in 1..=2000 plus 10 large N, 8 non-backup names; next number at the ends of the range: 2 names x all subsets of {0, 1, u64::MAX-1, u64::MAX}; 4 spellings of the destination (bare, ./, sub/, sub/../) x all subsets of {1,2,10}; '
+                     'next_backup_num/has_backup/get_backup_path: 2 names (one non-UTF-8) x all 1024 subsets, a name with a newline x 29 subsets, of existing numbers {1,2,9,10,11,99,100,101,205,1000}',
             'wall_s': round(time.time() - t0, 1),
             'tail': '' if ran is not None else out[-1500:],
         }
